@@ -128,10 +128,10 @@ pub fn build(r: &mut Rng, kind: ConnKind, client: Endpoint, server: Endpoint, o:
             // connection may contain a frame above the default limit before its HEADERS
             let announce = kind == ConnKind::Http2Hostile && r.chance(1, 2);
             let big = if kind == ConnKind::Http2 && r.chance(1, 5) { Some(r.urange(16385, 30000)) } else { None };
-            let (rq, _) = http2::connection_start(r, &http2::Opts { request: true, hostile: if announce { http2::Hostile::None } else { hostile }, fancy_headers: false, odd_order: false, self_ref, continuation: false, big_frame: big, announce_max_frame: announce });
+            let (rq, _) = http2::connection_start(r, &http2::Opts { request: true, hostile: if announce { http2::Hostile::None } else { hostile }, fancy_headers: false, odd_order: false, self_ref, continuation: false, big_frame: big, announce_max_frame: announce, huge_block: 0 });
             let hostile_s = if kind == ConnKind::Http2Hostile && r.chance(1, 2) { *r.pick(&[http2::Hostile::SizeZero, http2::Hostile::SizeZeroThenBogus]) } else { http2::Hostile::None };
             let self_ref_s = kind == ConnKind::Http2 && r.chance(1, 2);
-            let (rs, _) = http2::connection_start(r, &http2::Opts { request: false, hostile: hostile_s, fancy_headers: false, odd_order: false, self_ref: self_ref_s, continuation: false, big_frame: None, announce_max_frame: false });
+            let (rs, _) = http2::connection_start(r, &http2::Opts { request: false, hostile: hostile_s, fancy_headers: false, odd_order: false, self_ref: self_ref_s, continuation: false, big_frame: None, announce_max_frame: false, huge_block: 0 });
             (rq, rs)
         }
         ConnKind::TlsThenHttpResponse => {
